@@ -66,7 +66,7 @@ func runGateCell(c gateCell, idx int) (res cellResult) {
 	if c.SrcA == "pfv" || c.SrcB == "pfv" {
 		method = "POST" // postFormValue only sees a request body
 	}
-	ownA, ownB := ownerOf(0, 1), ownerOf(0, 2)
+	ownA, ownB := ownerOf(200000+idx, 1), ownerOf(200000+idx, 2) // unique per cell: a value left over from another cell is recognisable
 	qa := gateRequest(ownA, c.SrcA, method, [2]string{"X-Gate", c.Pos}, [2]string{"X-Gate-Name", "ga"})
 	qb := gateRequest(ownB, c.SrcB, method)
 	where := map[string]string{"early": "before its first read", "mid": "between its two reads"}[c.Pos]
@@ -112,6 +112,15 @@ func runGated(key string, qa, qb reqSpec, ownA, ownB, where string) (res cellRes
 	}
 	w.gates.disarm("ga")
 	var parts []string
+	for _, x := range []struct {
+		who string
+		got observation
+		own string
+	}{{"A", ba, ownA}, {"B", bb, ownB}} {
+		for _, d := range foreignFields(x.got, x.own) {
+			parts = append(parts, fmt.Sprintf("%s served ALONE on a fresh server answers %s = %q, which belongs to an earlier request %v", x.who, d.Field, clip(d.Got, 100), d.Foreign))
+		}
+	}
 	for _, x := range []struct {
 		who       string
 		got, want observation
@@ -167,7 +176,7 @@ func runLocalCell(c localCell, idx int) cellResult {
 	if idx%2 == 1 {
 		method = "GET"
 	}
-	ownA, ownB := ownerOf(0, 1), ownerOf(0, 2)
+	ownA, ownB := ownerOf(400000+idx, 1), ownerOf(400000+idx, 2)
 	mk := func(own, kind, gate string) reqSpec {
 		server := "lgate"
 		if k, ok := strings.CutPrefix(kind, "mw-"); ok {
@@ -239,7 +248,7 @@ func runSeqCell(c seqCell, idx int) (res cellResult) {
 		}
 		return stdRequest("seq", "seq", "/seq", method, owner, 2, x...)
 	}
-	own := []string{ownerOf(0, 1), ownerOf(0, 2)}
+	own := []string{ownerOf(300000+idx, 1), ownerOf(300000+idx, 2)}
 	qs := []reqSpec{mk(own[0]), mk(own[1])}
 	var base []observation
 	res.Nontrivial = true
@@ -252,6 +261,10 @@ func runSeqCell(c seqCell, idx int) (res cellResult) {
 		base = append(base, b)
 		if ownTokenCount(b, own[i]) < 2 {
 			res.Nontrivial = false
+		}
+		for _, d := range foreignFields(b, own[i]) {
+			key := "seq/" + seqLayer(d.Field) + strings.TrimPrefix(res.Key, "seq") + "/foreign-when-alone"
+			res.Mism = append(res.Mism, mismatch{Key: key, What: fmt.Sprintf("%s served ALONE on a fresh server answers %s = %q, which belongs to an earlier request %v of this process", q, d.Field, clip(d.Got, 120), d.Foreign)})
 		}
 	}
 	w, err := newLoadedWorld()
